@@ -14,20 +14,28 @@ vars == << s, n, last, lastErr, readOK >>
 Configured == [InitObj EXCEPT !.act = 1, !.att = 1, !.tmpl = 1, !.energy = 1, !.nd = MaxNd, !.geo = 1, !.out = 1]
 Init == s \in {InitObj, Configured} /\ n = 0 /\ last = "New" /\ lastErr = FALSE /\ readOK = TRUE
 
-Step(name, t, err) == /\ n < MaxOps /\ n' = n + 1 /\ s' = t /\ last' = name /\ lastErr' = err /\ UNCHANGED readOK
-
-SetAct == Step("SetAct", IF Bug = "actkeep" THEN [s EXCEPT !.act = @ + 1, !.asu = FALSE] ELSE SetActOp(s), FALSE)
-SetAtt == Step("SetAtt", SetAttOp(s), FALSE)
-SetSp == \E k \in 1..MaxNp : Step("SetSp", SetSpOp(s, k), FALSE)
-Downsample == \E k \in 1..MaxNp : Step("Downsample", DownsampleOp(s, k), DownsampleErr(s))
-SetTmpl == \E d \in 1..MaxNd : Step("SetTmpl", SetTmplOp(s, d, s.tmpl + 1), FALSE)
-SetEnergy == Step("SetEnergy", IF Bug = "asukeep" THEN [s EXCEPT !.energy = @ + 1] ELSE SetEnergyOp(s), FALSE)
-SetCache == \E b \in BOOLEAN :
-              Step(IF b = s.useCache THEN "SetCacheSame" ELSE "SetCache",
-                   IF Bug = "toggle" THEN [s EXCEPT !.useCache = b] ELSE SetCacheOp(s, b), FALSE)
-SetOut == s.tmpl > 0 /\ Step("SetOut", SetOutOp(s), FALSE)
-SetUp == \E k \in 1..MaxNp :
-           Step("SetUp", IF Bug = "effkeep" /\ ~SetUpErr(s) THEN [SetUpOp(s, k) EXCEPT !.eff = s.eff] ELSE SetUpOp(s, k), SetUpErr(s))
+\* (every action is written out so that TLC's coverage names it)
+SetAct == /\ n < MaxOps /\ n' = n + 1 /\ last' = "SetAct" /\ lastErr' = FALSE /\ UNCHANGED readOK
+          /\ s' = IF Bug = "actkeep" THEN [s EXCEPT !.act = @ + 1, !.asu = FALSE] ELSE SetActOp(s)
+SetAtt == /\ n < MaxOps /\ n' = n + 1 /\ last' = "SetAtt" /\ lastErr' = FALSE /\ UNCHANGED readOK
+          /\ s' = SetAttOp(s)
+SetSp == /\ n < MaxOps /\ n' = n + 1 /\ last' = "SetSp" /\ lastErr' = FALSE /\ UNCHANGED readOK
+         /\ \E k \in 1..MaxNp : s' = SetSpOp(s, k)
+Downsample == /\ n < MaxOps /\ n' = n + 1 /\ last' = "Downsample" /\ lastErr' = DownsampleErr(s) /\ UNCHANGED readOK
+              /\ \E k \in 1..MaxNp : s' = DownsampleOp(s, k)
+SetTmpl == /\ n < MaxOps /\ n' = n + 1 /\ last' = "SetTmpl" /\ lastErr' = FALSE /\ UNCHANGED readOK
+           /\ \E d \in 1..MaxNd : s' = SetTmplOp(s, d, s.tmpl + 1)
+SetEnergy == /\ n < MaxOps /\ n' = n + 1 /\ last' = "SetEnergy" /\ lastErr' = FALSE /\ UNCHANGED readOK
+             /\ s' = IF Bug = "asukeep" THEN [s EXCEPT !.energy = @ + 1] ELSE SetEnergyOp(s)
+SetCache == /\ n < MaxOps /\ n' = n + 1 /\ lastErr' = FALSE /\ UNCHANGED readOK
+            /\ \E b \in BOOLEAN :
+                 /\ last' = IF b = s.useCache THEN "SetCacheSame" ELSE "SetCache"
+                 /\ s' = IF Bug = "toggle" THEN [s EXCEPT !.useCache = b] ELSE SetCacheOp(s, b)
+SetOut == /\ n < MaxOps /\ n' = n + 1 /\ last' = "SetOut" /\ lastErr' = FALSE /\ UNCHANGED readOK
+          /\ s.tmpl > 0 /\ s' = SetOutOp(s)
+SetUp == /\ n < MaxOps /\ n' = n + 1 /\ last' = "SetUp" /\ lastErr' = SetUpErr(s) /\ UNCHANGED readOK
+         /\ \E k \in 1..MaxNp :
+              s' = IF Bug = "effkeep" /\ ~SetUpErr(s) THEN [SetUpOp(s, k) EXCEPT !.eff = s.eff] ELSE SetUpOp(s, k)
 Compute == \E R \in (SUBSET Entries(s)) \ { {} } :
              /\ n < MaxOps /\ n' = n + 1 /\ last' = "Compute" /\ lastErr' = ComputeErr(s)
              /\ s' = ComputeOp(s, R, R)
